@@ -8,7 +8,8 @@ from checks import isa_common as ic
 
 PROGS = {1: json.load(open(os.path.join(vlib.VERIF, "programs", "progint.json"))),
          2: json.load(open(os.path.join(vlib.VERIF, "programs", "progint2.json"))),
-         3: json.load(open(os.path.join(vlib.VERIF, "programs", "progint3.json")))}
+         3: json.load(open(os.path.join(vlib.VERIF, "programs", "progint3.json"))),
+         4: json.load(open(os.path.join(vlib.VERIF, "programs", "progint4.json")))}
 MC = os.path.join(vlib.SPEC, "mc", "MC_Int.tla")
 
 
@@ -34,9 +35,9 @@ def run(tier, seed, replay):
     states = trans = 0
     cases = []
     per = {}
-    passes = [(1, "single"), (2, "single"), (3, "single")] + ([(1, "pair"), (2, "pair"), (3, "pair")] if tier == "thorough" else [(2, "pair")])
+    passes = [(1, "single"), (2, "single"), (3, "single"), (4, "single"), (4, "pair")] + ([(1, "pair"), (2, "pair"), (3, "pair")] if tier == "thorough" else [(2, "pair")])
     refs = {}
-    for which in (1, 2, 3):
+    for which in (1, 2, 3, 4):
         r = vlib.tlc(MC, os.path.join(vlib.SPEC, "mc", "MC_Int_ref%d.cfg" % which), workers=1, timeout=900, name="int-ref%d" % which)
         if r.violated:
             v.violation("int:ref:%d" % which, "the uninterrupted run of interrupt-suite program %d does not reach STOP on Micro.tla: %s" % (which, r.violated), {})
@@ -85,11 +86,11 @@ def run(tier, seed, replay):
         "states": states, "transitions": trans, "traces_validated_against_impl": res["cases"] + 1,
         "samples": [{"sched": cases[len(cases) // 2]["sched"], "entries": cases[len(cases) // 2]["entries"], "prog": cases[len(cases) // 2]["prog"]}],
         "schedules_replayed": res["cases"], "per_pass": per, "trace_events_validated": nev, "exhaustive": False,
-        "rule": "TLC: for each interrupt-suite program every trigger cycle 0..T (single press) and every pair with the second press within 12 cycles; "
+        "rule": "TLC: for each interrupt-suite program every trigger cycle 0..T (single press) and every pair with the second press within 12 cycles (70 cycles for the program whose routine re-enables interrupts: nested entries); "
                 "EntryStep (routine entered only from an int: word), NoSpurious, AtEnd (every effective press consumed exactly once; presses made while "
                 "enabled are entered unless the program disables interrupts first; counter cell = entries), Transparent (registers, flags, SP, outputs, "
                 "live memory equal to the uninterrupted run); every schedule replayed on the real machine and the full final state compared",
     }
     return v.finish("model_checking", cov, ["TLC", "sampling semantics: a press during DI / the entry sequence is dropped or deferred by design; dead stack "
                                             "slots below the final SP and the routine's counter cell are masked in the comparison",
-                                            "three main x interrupt-routine programs (MUL/DIV loops, CALL/RET, PUSH/POP, PUSHF/POPF, EI/DI/RETI windows, key enable bit toggled while IE is set, a pausing STOP resumed by the continue key with the key pressed while paused)"])
+                                            "four main x interrupt-routine programs (a routine that re-enables interrupts itself and is entered again while running, MUL/DIV loops, CALL/RET, PUSH/POP, PUSHF/POPF, EI/DI/RETI windows, key enable bit toggled while IE is set, a pausing STOP resumed by the continue key with the key pressed while paused)"])
